@@ -1,5 +1,356 @@
-import CachedModel
+/-
+  C10  The sweeper removes exactly the expired keys and reclaims their weight.
+
+  One sweep (`sweepStep`, one tick of the TTL ticker) visits the shard `secsOf now % shards` and takes the entries
+  `due s` (those of that shard whose deadline has passed) out of the expiry index.  Under the invariant `TtlInv`
+  of the index (Lemmas/TtlInv.lean, proved for every reachable state: `ttlinv_reach`) this file shows:
+
+    * `C10_index_after_sweep`   exactly the due entries leave the index;
+    * `C10_removed_exactly`     a stored key disappears iff its CURRENT deadline lies in the visited shard and has
+                                passed; every other key keeps its entry unchanged, absent keys stay absent;
+      `C10_never_removes_live`  no deadline / deadline in the future (in particular: extended or removed by a later
+                                upsert, because only the current expiry counts): the key stays;
+      `C10_other_shard_untouched`  deadline in another shard: the key stays (until that shard's turn);
+    * `C10_weight_reclaimed`    the evicted ids are exactly the charged ids with a due index entry, the total falls by
+                                the sum of their weights, they are no longer charged, all other charges are unchanged;
+    * `C10_stale_harmless`      a due entry whose id is no longer charged (evicted earlier; a deleted key has no entry
+                                left at all, see C04_released) is just dropped; `C10_all_stale_noop`;
+    * `C10_eventually`, `C10_fair_ticks`, `C10_unfair_ticks`  liveness: a sweep of the right shard after the deadline
+                                removes the key and releases its weight, and with a one-second tick every shard is
+                                visited again and again.
+
+  None of the statements needs the worker to be alive: `TtlInv` carries the part of the key/weight correspondence
+  that survives a worker panic (`TtlInv.heldW`), so the sweeper is correct even then.  A sweep only exists while the
+  ticker thread is alive (`sweepStep` is an illegal event otherwise); after `shutdown()` it makes one more sweep at
+  most.
+-/
+import CachedProofs.Lemmas.TtlInv
 
 namespace Cached
+
+/-- **Exactly the due entries of the visited shard leave the index, nothing else** (no invariant needed). -/
+theorem C10_index_after_sweep {s s' : State} {ev : List Evicted} (hs : sweepStep s = .ok (s', .swept ev)) :
+    s'.ttl = s.ttl.filter (fun p => !due s p) := by
+  obtain ⟨s1, _, _, _, h, _⟩ := sweepStep_spec hs
+  exact h
+
+/-- The clock and the configuration are not touched by a sweep. -/
+theorem C10_sweep_frame {s s' : State} {ev : List Evicted} (hs : sweepStep s = .ok (s', .swept ev)) :
+    s'.now = s.now ∧ s'.cfg = s.cfg := by
+  obtain ⟨s1, _, _, _, _, h1, h2⟩ := sweepStep_spec hs
+  exact ⟨h1, h2⟩
+
+/-- **A stored key disappears in a sweep iff its current deadline lies in the visited shard and has passed**;
+    otherwise its entry is unchanged.  (Stored entries are always charged, `TtlInv.charged`, so "charged" is not
+    a separate condition; the worker may be dead.) -/
+theorem C10_removed_exactly {s s' : State} {ev : List Evicted} (t : TtlInv s)
+    (hs : sweepStep s = .ok (s', .swept ev)) {k : Nat} {e : Entry} (hk : s.store.get? k = some e) :
+    (s'.store.get? k = none ↔
+      ∃ x, e.expiry = some x ∧ s.now > x ∧ shardOf s.cfg x = secsOf s.now % s.cfg.shards) ∧
+    (s'.store.get? k = none ∨ s'.store.get? k = some e) := by
+  obtain ⟨s1, sp, h1, h2, _, _, _⟩ := sweepStep_spec hs
+  have hget : s'.store.get? k = if k ∈ ev.map (·.2.1) then none else some e := by
+    rw [h1, sp.store, AMap.get?_delKeys, hk]
+  obtain ⟨wk, hw, hkey⟩ := t.charged hk
+  refine ⟨?_, ?_⟩
+  · rw [hget]
+    constructor
+    · intro h
+      split at h
+      · rename_i hmem
+        obtain ⟨e', he', hk'⟩ := List.mem_map.mp hmem
+        obtain ⟨hin, hh, hg⟩ := sp.evIn e' he'
+        have hid : e.id = e'.1 := t.heldW.2 e'.1 _ e hg (by simp only; rw [hk']; exact hk)
+        obtain ⟨sh, x, hx, hd⟩ := (mem_dueIds t.noDup e'.1).mp hin
+        rw [← hid] at hx
+        obtain ⟨hexp, hsh⟩ := (t.sync hk sh x).mp hx
+        simp only [due, Bool.and_eq_true, beq_iff_eq, decide_eq_true_eq] at hd
+        exact ⟨x, hexp, hd.2, by rw [← hsh]; exact hd.1⟩
+      · cases h
+    · intro ⟨x, hexp, hnow, hsh⟩
+      have hx := t.indexedU k e x hk hexp
+      have hd : due s ((shardOf s.cfg x, e.id), x) = true := by
+        simp only [due, Bool.and_eq_true, beq_iff_eq, decide_eq_true_eq]
+        exact ⟨hsh, hnow⟩
+      have hin : e.id ∈ (s.ttl.filter (due s)).map (·.1.2) := (mem_dueIds t.noDup e.id).mpr ⟨_, x, hx, hd⟩
+      have := sp.evAll e.id hin wk hw
+      have hmem : k ∈ ev.map (·.2.1) := List.mem_map.mpr ⟨_, this, hkey⟩
+      simp [hmem]
+  · rw [hget]
+    split
+    · exact Or.inl rfl
+    · exact Or.inr rfl
+
+/-- An absent key stays absent: a sweep never adds anything to the store. -/
+theorem C10_absent_stays_absent {s s' : State} {ev : List Evicted} (hs : sweepStep s = .ok (s', .swept ev))
+    {k : Nat} (hk : s.store.get? k = none) : s'.store.get? k = none := by
+  obtain ⟨s1, sp, h1, _⟩ := sweepStep_spec hs
+  rw [h1, sp.store, AMap.get?_delKeys, hk]
+  simp
+
+/-- **A sweep never removes a live key**: a key without time-to-live, or whose deadline has not passed.  The
+    deadline that counts is the entry's CURRENT one (`TtlInv.current` / `TtlInv.sync`): after an upsert that extended
+    or removed the time-to-live, the old deadline coming due removes nothing. -/
+theorem C10_never_removes_live {s s' : State} {ev : List Evicted} (t : TtlInv s)
+    (hs : sweepStep s = .ok (s', .swept ev)) {k : Nat} {e : Entry} (hk : s.store.get? k = some e)
+    (hlive : e.expiry = none ∨ ∃ x, e.expiry = some x ∧ s.now ≤ x) : s'.store.get? k = some e := by
+  obtain ⟨h1, h2⟩ := C10_removed_exactly t hs hk
+  rcases h2 with h2 | h2
+  · obtain ⟨x, hx, hnow, _⟩ := h1.mp h2
+    rcases hlive with hl | ⟨y, hy, hle⟩
+    · rw [hl] at hx; cases hx
+    · rw [hy] at hx
+      simp only [Option.some.injEq] at hx
+      subst hx
+      omega
+  · exact h2
+
+/-- A key whose deadline lies in another shard than the visited one stays, even if the deadline has passed
+    (it goes when its own shard is visited, `C10_eventually`). -/
+theorem C10_other_shard_untouched {s s' : State} {ev : List Evicted} (t : TtlInv s)
+    (hs : sweepStep s = .ok (s', .swept ev)) {k : Nat} {e : Entry} {x : Nat} (hk : s.store.get? k = some e)
+    (hx : e.expiry = some x) (hsh : shardOf s.cfg x ≠ secsOf s.now % s.cfg.shards) : s'.store.get? k = some e := by
+  obtain ⟨h1, h2⟩ := C10_removed_exactly t hs hk
+  rcases h2 with h2 | h2
+  · obtain ⟨y, hy, _, hs'⟩ := h1.mp h2
+    rw [hx] at hy
+    simp only [Option.some.injEq] at hy
+    subst hy
+    exact absurd hs' hsh
+  · exact h2
+
+/-- **The weight of the removed keys is reclaimed.**  `ev` (the evictions the sweep reports, as (id, key, weight))
+    lists, without repetition, exactly the charged ids that have a due index entry, with the key and the weight they
+    were charged for; the total falls by the sum of these weights; the ids are no longer charged afterwards; every
+    other id is charged exactly as before; the limit is untouched. -/
+theorem C10_weight_reclaimed {s s' : State} {ev : List Evicted} (t : TtlInv s)
+    (hs : sweepStep s = .ok (s', .swept ev)) :
+    (ev.map (·.1)).Nodup ∧
+    (∀ id key w, (id, key, w) ∈ ev ↔
+      ∃ sh x hash, s.ttl.get? (sh, id) = some x ∧ due s ((sh, id), x) = true ∧
+        s.adm.kw.get? id = some ⟨key, hash, w⟩) ∧
+    s'.adm.used = s.adm.used - (ev.map (·.2.2)).sum ∧
+    (∀ e ∈ ev, s'.adm.kw.get? e.1 = none) ∧
+    (∀ i, i ∉ ev.map (·.1) → s'.adm.kw.get? i = s.adm.kw.get? i) ∧
+    s'.adm.max = s.adm.max := by
+  obtain ⟨s1, sp, _, h2, _, _, _⟩ := sweepStep_spec hs
+  refine ⟨sp.evNodup, ?_, by rw [h2]; exact sp.used, ?_, ?_, by rw [h2]; exact sp.max⟩
+  · intro id key w
+    constructor
+    · intro hm
+      obtain ⟨hin, hash, hg⟩ := sp.evIn _ hm
+      obtain ⟨sh, x, hx, hd⟩ := (mem_dueIds t.noDup id).mp hin
+      exact ⟨sh, x, hash, hx, hd, hg⟩
+    · intro ⟨sh, x, hash, hx, hd, hg⟩
+      exact sp.evAll id ((mem_dueIds t.noDup id).mpr ⟨sh, x, hx, hd⟩) _ hg
+  · intro e he
+    rw [h2, sp.kw]
+    simp [(sp.evIn e he).1]
+  · intro i hi
+    rw [h2, sp.kw]
+    split
+    · rename_i hin
+      cases hg : s.adm.kw.get? i with
+      | none => rfl
+      | some wk =>
+        exact absurd (List.mem_map.mpr ⟨_, sp.evAll i hin wk hg, rfl⟩) hi
+    · rfl
+
+/-- **A stale index entry is harmless.**  If a due entry's id is not charged any more (its key was evicted earlier;
+    the key may have been put again since, under a new id) the sweep only drops that entry: no eviction is reported
+    for the id, it stays un-charged, and no stored key — in particular not a new incarnation of the same key —
+    carries it, so what happens to every stored key is decided by its own current deadline alone
+    (`C10_removed_exactly`). -/
+theorem C10_stale_harmless {s s' : State} {ev : List Evicted} (t : TtlInv s)
+    (hs : sweepStep s = .ok (s', .swept ev)) {sh i x : Nat} (hx : s.ttl.get? (sh, i) = some x)
+    (hd : due s ((sh, i), x) = true) (hstale : s.adm.kw.get? i = none) :
+    (∀ e ∈ ev, e.1 ≠ i) ∧ s'.adm.kw.get? i = none ∧ (∀ k e, s.store.get? k = some e → e.id ≠ i) ∧
+    s'.ttl.get? (sh, i) = none := by
+  obtain ⟨s1, sp, _, h2, h3, _, _⟩ := sweepStep_spec hs
+  refine ⟨?_, ?_, ?_, ?_⟩
+  · intro e he heq
+    obtain ⟨_, hh, hg⟩ := sp.evIn e he
+    rw [heq, hstale] at hg
+    cases hg
+  · rw [h2, sp.kw]
+    split
+    · rfl
+    · exact hstale
+  · intro k e hk heq
+    obtain ⟨wk, hw, _⟩ := t.charged hk
+    rw [heq, hstale] at hw
+    cases hw
+  · rw [h3, AMap.get?_filter t.noDup, hx]
+    simp [hd]
+
+/-- If every due entry is stale the sweep changes nothing but the index. -/
+theorem C10_all_stale_noop {s s' : State} {ev : List Evicted} (hs : sweepStep s = .ok (s', .swept ev))
+    (hstale : ∀ p ∈ s.ttl, due s p = true → s.adm.kw.get? p.1.2 = none) :
+    ev = [] ∧ s'.store = s.store ∧ s'.adm = s.adm ∧ s'.stats = s.stats := by
+  obtain ⟨_, hev, rfl⟩ := sweepStep_eq hs
+  have := sweepEntries_all_stale (s.ttl.filter (due s)) s []
+    (fun p hp => hstale p (List.mem_filter.mp hp).1 (List.mem_filter.mp hp).2)
+  rw [this] at hev
+  rw [this]
+  exact ⟨hev, rfl, rfl, rfl⟩
+
+/-- **Every key whose current deadline has passed is removed by the next sweep of its shard, and its weight is
+    released**: the key leaves the store, its id is un-charged, and the eviction (id, key, charged weight) is among
+    those by whose weights the total falls. -/
+theorem C10_eventually {s s' : State} {ev : List Evicted} (t : TtlInv s)
+    (hs : sweepStep s = .ok (s', .swept ev)) {k : Nat} {e : Entry} {x : Nat} (hk : s.store.get? k = some e)
+    (hx : e.expiry = some x) (hpast : s.now > x) (hshard : secsOf s.now % s.cfg.shards = shardOf s.cfg x) :
+    s'.store.get? k = none ∧ s'.adm.kw.get? e.id = none ∧
+    ∃ wk, s.adm.kw.get? e.id = some wk ∧ wk.key = k ∧ (e.id, k, wk.weight) ∈ ev ∧
+      s'.adm.used = s.adm.used - (ev.map (·.2.2)).sum := by
+  obtain ⟨h1, _⟩ := C10_removed_exactly t hs hk
+  obtain ⟨_, w2, w3, w4, _, _⟩ := C10_weight_reclaimed t hs
+  obtain ⟨wk, hw, hkey⟩ := t.charged hk
+  have hidx := t.indexedU k e x hk hx
+  have hd : due s ((shardOf s.cfg x, e.id), x) = true := by
+    simp only [due, Bool.and_eq_true, beq_iff_eq, decide_eq_true_eq]
+    exact ⟨hshard.symm, hpast⟩
+  have hmem : (e.id, k, wk.weight) ∈ ev := by
+    refine (w2 e.id k wk.weight).mpr ⟨_, x, wk.hash, hidx, hd, ?_⟩
+    rw [hw, ← hkey]
+  exact ⟨h1.mpr ⟨x, hx, hpast, hshard.symm⟩, w4 _ hmem, wk, hw, hkey, hmem, w3⟩
+
+/-- The same for a reachable state, where both invariants hold. -/
+theorem C10_eventually_reach {cfg : Cfg} {now0 : Nat} {seeds : List Nat} {s s' : State} {ev : List Evicted}
+    (hr : Reach cfg now0 seeds s) (hs : sweepStep s = .ok (s', .swept ev)) {k : Nat} {e : Entry} {x : Nat}
+    (hk : s.store.get? k = some e) (hx : e.expiry = some x) (hpast : s.now > x)
+    (hshard : secsOf s.now % s.cfg.shards = shardOf s.cfg x) :
+    s'.store.get? k = none ∧ s'.adm.kw.get? e.id = none := by
+  obtain ⟨h1, h2, _⟩ := C10_eventually (ttlinv_reach hr) hs hk hx hpast hshard
+  exact ⟨h1, h2⟩
+
+/-- **With a one-second tick every shard is visited again and again**: for a tick train `t0 + n * 1 s`, every
+    shard `r` and every time bound `B` there is a tick at or after `B` that visits `r`. -/
+theorem C10_fair_ticks (shards : Nat) (hpos : 0 < shards) (t0 r B : Nat) (hr : r < shards) :
+    ∃ n, t0 + n * 1000000000 ≥ B ∧ secsOf (t0 + n * 1000000000) % shards = r := by
+  have hsec : ∀ n, secsOf (t0 + n * 1000000000) = secsOf t0 + n := by
+    intro n
+    unfold secsOf nsPerSec
+    exact Nat.add_mul_div_right t0 n (by decide)
+  -- choose `n` with `secsOf t0 + n = shards * K + r` for a large `K`
+  have hK : secsOf t0 + B + 1 ≤ shards * (secsOf t0 + B + 1) := Nat.le_mul_of_pos_left _ hpos
+  refine ⟨shards * (secsOf t0 + B + 1) + r - secsOf t0, ?_, ?_⟩
+  · generalize shards * (secsOf t0 + B + 1) = X at hK
+    omega
+  · rw [hsec]
+    have : secsOf t0 + (shards * (secsOf t0 + B + 1) + r - secsOf t0) = shards * (secsOf t0 + B + 1) + r := by
+      generalize shards * (secsOf t0 + B + 1) = X at hK
+      omega
+    rw [this, Nat.mul_add_mod, Nat.mod_eq_of_lt hr]
+
+/-- A tick that shares a factor with the number of shards does NOT have this property: with a two-second tick and
+    256 shards the parity of the visited shard never changes, so half of the shards are never swept. -/
+theorem C10_unfair_ticks (t0 n : Nat) :
+    (secsOf (t0 + n * 2000000000) % 256) % 2 = (secsOf t0 % 256) % 2 := by
+  have hsec : secsOf (t0 + n * 2000000000) = secsOf t0 + 2 * n := by
+    unfold secsOf nsPerSec
+    have : t0 + n * 2000000000 = t0 + (2 * n) * 1000000000 := by omega
+    rw [this]
+    exact Nat.add_mul_div_right t0 (2 * n) (by decide)
+  rw [hsec]
+  omega
+
+/-- a small concrete instance: two shards, two-second tick starting at 0 — shard 1 is not visited -/
+example : ∀ n, n < 50 → secsOf (0 + n * 2000000000) % 2 ≠ 1 := by decide
+
+/-! ### non-vacuity: concrete histories (two shards, limit 100 resp. 10) -/
+
+/-- `init` at 5 s; `put_with_weight_and_ttl(1, weight 5, ttl 1 s)` executed: deadline 6 s, shard 0. -/
+def c10Cfg : Cfg := { maxWeight := 100, shards := 2, cmdCap := 4, poolSize := 1, bufSize := 2, counters := 2 }
+
+/-- no choices needed -/
+def c10O : Oracle := {}
+
+def c10Put : List (Ev × Oracle) := [(.putWTtl 0 1 10 5 1000000000, c10O), (.worker, c10O)]
+
+/-- the put is indexed under its deadline's shard and charged -/
+example :
+    (match runEvents (State.init c10Cfg 5000000000 [1, 2, 3, 4]) c10Put with
+     | .ok s => decide (s.store.get? 1 = some ⟨10, 1, some 6000000000, false⟩ ∧ s.ttl = [((0, 1), 6000000000)] ∧
+                        s.adm.used = 5 ∧ s.adm.kw.get? 1 = some ⟨1, 1, 5⟩)
+     | _ => false) = true := by decide
+
+/-- the clock moves past the deadline (8 s: shard 0) and the sweep of the right shard removes the key and releases
+    its weight (hypotheses of `C10_eventually`, and its conclusion, on a concrete run) -/
+example :
+    (match runEvents (State.init c10Cfg 5000000000 [1, 2, 3, 4]) (c10Put ++ [(.advance 3000000000, c10O)]) with
+     | .ok s =>
+       (match sweepStep s with
+        | .ok (s', .swept ev) =>
+          decide (s.now > 6000000000 ∧ secsOf s.now % s.cfg.shards = shardOf s.cfg 6000000000 ∧
+                  s'.store.get? 1 = none ∧ s'.adm.used = 0 ∧ s'.adm.kw.get? 1 = none ∧ s'.ttl = [] ∧ ev = [(1, 1, 5)])
+        | _ => false)
+     | _ => false) = true := by decide
+
+/-- a sweep in the other shard (7 s: shard 1) leaves it, although the deadline has passed
+    (`C10_other_shard_untouched`) -/
+example :
+    (match runEvents (State.init c10Cfg 5000000000 [1, 2, 3, 4]) (c10Put ++ [(.advance 2000000000, c10O), (.sweep, c10O)]) with
+     | .ok s => decide (s.now > 6000000000 ∧ s.store.get? 1 = some ⟨10, 1, some 6000000000, false⟩ ∧ s.adm.used = 5 ∧
+                        s.ttl = [((0, 1), 6000000000)])
+     | _ => false) = true := by decide
+
+/-- a sweep of the right shard before the deadline (6 s sharp: not yet passed) leaves it (`C10_never_removes_live`) -/
+example :
+    (match runEvents (State.init c10Cfg 5000000000 [1, 2, 3, 4]) (c10Put ++ [(.advance 1000000000, c10O), (.sweep, c10O)]) with
+     | .ok s => decide (s.now = 6000000000 ∧ s.store.get? 1 = some ⟨10, 1, some 6000000000, false⟩ ∧ s.adm.used = 5)
+     | _ => false) = true := by decide
+
+/-- a key whose time-to-live was removed by an upsert survives the sweep at its old deadline -/
+example :
+    (match runEvents (State.init c10Cfg 5000000000 [1, 2, 3, 4])
+        (c10Put ++ [(.upsert 0 1 none (some 5) none true, c10O), (.worker, c10O), (.advance 3000000000, c10O), (.sweep, c10O)]) with
+     | .ok s => decide (s.now = 8000000000 ∧ s.store.get? 1 = some ⟨10, 1, none, false⟩ ∧ s.adm.used = 5 ∧ s.ttl = [])
+     | _ => false) = true := by decide
+
+/-- a key whose time-to-live was extended (to 9 s: shard 1) by an upsert survives the sweep at its old deadline -/
+example :
+    (match runEvents (State.init c10Cfg 5000000000 [1, 2, 3, 4])
+        (c10Put ++ [(.upsert 0 1 none (some 5) (some 4000000000) false, c10O), (.worker, c10O),
+                    (.advance 3000000000, c10O), (.sweep, c10O)]) with
+     | .ok s => decide (s.now = 8000000000 ∧ s.store.get? 1 = some ⟨10, 1, some 9000000000, false⟩ ∧ s.adm.used = 5 ∧
+                        s.ttl = [((1, 1), 9000000000)])
+     | _ => false) = true := by decide
+
+/-- limit 10: key 1 (id 1, ttl, deadline 2 s) is evicted by the admission of key 2, which leaves a stale index
+    entry; key 1 is put again (id 3, no ttl) -/
+def c10Stale : List (Ev × Oracle) :=
+  [(.putWTtl 0 1 100 6 1000000000, c10O), (.worker, c10O), (.putW 0 2 200 7, c10O),
+   (.worker, { dk := [false, false], ids := [1], pops := [some 1] }), (.putW 0 1 300 3, c10O), (.worker, c10O),
+   (.advance 3000000000, c10O)]
+
+def c10StaleInit : State :=
+  State.init { maxWeight := 10, shards := 2, cmdCap := 4, poolSize := 1, bufSize := 2, counters := 2 } 1000000000 [1, 2, 3, 4]
+
+/-- hypotheses of `C10_stale_harmless` on this run: a due entry whose id is not charged, the key stored again -/
+example :
+    (match runEvents c10StaleInit c10Stale with
+     | .ok s => decide (s.ttl = [((0, 1), 2000000000)] ∧ due s ((0, 1), 2000000000) = true ∧ s.adm.kw.get? 1 = none ∧
+                        s.store.get? 1 = some ⟨300, 3, none, false⟩ ∧ s.adm.used = 10)
+     | _ => false) = true := by decide
+
+/-- …and the sweep drops the stale entry without touching the new incarnation (or anything else) -/
+example :
+    (match runEvents c10StaleInit (c10Stale ++ [(.sweep, c10O)]) with
+     | .ok s => decide (s.ttl = [] ∧ s.store.get? 1 = some ⟨300, 3, none, false⟩ ∧ s.store.get? 2 ≠ none ∧
+                        s.adm.used = 10 ∧ s.adm.kw.get? 3 = some ⟨1, 1, 3⟩)
+     | _ => false) = true := by decide
+
+/-- a deleted key leaves no index entry behind: put with ttl, delete, put again (no ttl), sweep at the old deadline -/
+example :
+    (match runEvents (State.init c10Cfg 5000000000 [1, 2, 3, 4])
+        (c10Put ++ [(.delete 0 1, c10O), (.worker, c10O), (.putW 0 1 11 4, c10O), (.worker, c10O),
+                    (.advance 3000000000, c10O), (.sweep, c10O)]) with
+     | .ok s => decide (s.ttl = [] ∧ s.store.get? 1 = some ⟨11, 2, none, false⟩ ∧ s.adm.used = 4)
+     | _ => false) = true := by decide
+
+/-- the states of these runs are reachable, so `Inv` and `TtlInv` hold for them -/
+example (s : State) (h : runEvents c10StaleInit c10Stale = .ok s) : Inv s ∧ TtlInv s :=
+  ⟨inv_reach (reach_runEvents _ Reach.init h), ttlinv_reach (reach_runEvents _ Reach.init h)⟩
 
 end Cached
